@@ -448,6 +448,13 @@ func checkCache(h *History, vs []*opView) {
 					if g, ok := h.Ups[s.up].ConnGone[s.reply.Conn]; ok && g < e && g >= s.reply.QueryAt {
 						e = g
 					}
+					// the proxy may have closed its end even before the query
+					// reached the server (e.g. the idle deadline of a pipelined
+					// connection expiring right after a write): that exchange was
+					// over, for the proxy, at the moment of the close
+					if g, ok := h.Ups[s.up].ConnAbandoned[s.reply.Conn]; ok && g < e {
+						e = g
+					}
 					return e
 				}
 				if kind := h.Ups[a.up].Spec.Kind; kind == "https" || kind == "http" || kind == "h3" || kind == "quic" {
